@@ -49,6 +49,24 @@ fn draw_windows<C: Col, T: ImageDrawable<Color = C>>(t: &T, mode: i64, at: Point
     json!({"size": [size.width, size.height], "wins": wins})
 }
 
+/// draw `t` through an `Image` on draining targets that discard the first k colours of the stream with one nth() call
+fn draw_skipping<C: Col, T: ImageDrawable<Color = C>>(t: &T, at: Point) -> Value {
+    let size = t.size();
+    let image = Image::new(t, at);
+    let (w, h) = (size.width as usize, size.height as usize);
+    let mut obs = vec![];
+    for k in [1usize, w, w + 1, 2 * w, 2 * w + 1, 3 * w + w / 2, w * h.saturating_sub(1), w * h, w * h + 3] {
+        if k == 0 {
+            continue;
+        }
+        let mut nat = Drain::<C>::new();
+        nat.skip = k;
+        image.draw(&mut nat).unwrap();
+        obs.push(json!({"k": k, "calls": nat.calls}));
+    }
+    json!({"size": [size.width, size.height], "obs": obs})
+}
+
 /// draw `t` through an `Image` on the draining target seen through `.clipped(clip)`: the adapter crops the
 /// colour stream with `Iterator::nth` (src/iterator/contiguous.rs), i.e. it SEEKS in the image's colour iterator
 fn draw_clipped<C: Col, T: ImageDrawable<Color = C>>(t: &T, mode: i64, at: Point, clip: &Rectangle) -> Value {
@@ -152,6 +170,21 @@ where
                 }
             }
             continue;
+        }
+        // every seventh draw also on targets that skip into the stream
+        if (areas.len() + at.x.unsigned_abs() as usize + 2 * at.y.unsigned_abs() as usize + w as usize + h as usize) % 7 == 0 && areas.len() <= 2 && mode == 0 {
+            let r = catch(|| match areas.len() {
+                0 => draw_skipping(&raw, at),
+                1 => draw_skipping(&raw.sub_image(&areas[0]), at),
+                _ => draw_skipping(&raw.sub_image(&areas[0]).sub_image(&areas[1]), at),
+            });
+            match r {
+                Ok(o) => rec.ev("sdraw", json!({"areas": dr["areas"], "at": dr["at"], "size": o["size"], "obs": o["obs"]})),
+                Err(pn) => {
+                    rec.note("panicked_draws");
+                    rec.ev("panic", json!({"msg": pn.msg, "loc": pn.loc}));
+                }
+            }
         }
         // every fifth draw also on window targets
         if (areas.len() + at.x.unsigned_abs() as usize + at.y.unsigned_abs() as usize + w as usize) % 5 == 0 && areas.len() <= 2 {
